@@ -358,9 +358,9 @@ def run(tier: str, seed: int):
         g, ds, txt = U.universe(tier, seed, U.EXT, quick_nodes=4, quick_limit=1200)
     else:
         g, ds, txt = U.universe(tier, seed, U.EXT, thorough_nodes=3)
-        ds += U.random_descrs(seed, U.EXT, 4, 1800) + U.random_descrs(seed, U.EXT, 5, 1000) + U.random_descrs(seed, U.EXT, 6, 500) \
-            + U.random_descrs(seed, U.EXT, 7, 300)
-        txt += '; 1800/1000/500/300 seeded random 4/5/6/7-node trees'
+        ds += U.random_descrs(seed, U.EXT, 4, 7000) + U.random_descrs(seed, U.EXT, 5, 4000) + U.random_descrs(seed, U.EXT, 6, 2000) \
+            + U.random_descrs(seed, U.EXT, 7, 1200)
+        txt += '; 7000/4000/2000/1200 seeded random 4/5/6/7-node trees'
     rng = __import__('random').Random(seed)
     nbad = 0
     for i, d in enumerate(ds):
